@@ -411,7 +411,7 @@ class _PlainAssign(ast.NodeTransformer):
 
     def visit_AnnAssign(self, node):
         self.generic_visit(node)
-        if self.depth and node.value is not None and isinstance(node.target, ast.Name):
+        if self.depth and node.value is not None and isinstance(node.target, (ast.Name, ast.Attribute)):
             new = ast.Assign(targets=[node.target], value=node.value)
             return ast.copy_location(new, node)
         return node
@@ -539,9 +539,79 @@ def _inline_delegators(tree, elsewhere=frozenset()):
     process(tree.body, False)
 
 
+def norm_name(e):
+    return e.id if isinstance(e, ast.Name) else None
+
+
+def _inline_pure_helpers(tree):
+    """_helper(a, b)  ->  the helper's return expression with a, b substituted, for private module-level helpers whose
+    body is a single `return EXPR` (an extracted condition / sub-expression).  The helper itself stays defined."""
+    import copy
+    helpers = {}
+    for st in tree.body:
+        if isinstance(st, ast.FunctionDef) and st.name.startswith('_') and not st.decorator_list:
+            body = st.body
+            if body and isinstance(body[0], ast.Expr) and isinstance(body[0].value, ast.Constant) and isinstance(body[0].value.value, str):
+                body = body[1:]
+            a = st.args
+            if len(body) == 1 and isinstance(body[0], ast.Return) and body[0].value is not None \
+                    and not (a.vararg or a.kwarg or a.kwonlyargs or a.posonlyargs or a.defaults):
+                expr = body[0].value
+                if any(isinstance(n, (ast.Yield, ast.YieldFrom, ast.Await, ast.Lambda, ast.NamedExpr)) for n in ast.walk(expr)):
+                    continue
+                if isinstance(expr, ast.Call) and [norm_name(x) for x in expr.args] == [x.arg for x in a.args] \
+                        and isinstance(expr.func, (ast.Name, ast.Attribute)):
+                    continue          # a wrapper around another function: left to the delegator rule
+                if any(isinstance(n, ast.Call) and isinstance(n.func, ast.Name) and n.func.id == st.name for n in ast.walk(expr)):
+                    continue
+                helpers[st.name] = ([x.arg for x in a.args], expr)
+    if not helpers:
+        return
+
+    def simple(e):
+        while isinstance(e, (ast.Attribute, ast.Subscript)):
+            if isinstance(e, ast.Subscript) and not isinstance(e.slice, (ast.Constant, ast.Name, ast.Slice, ast.UnaryOp)):
+                return False
+            e = e.value
+        return isinstance(e, (ast.Name, ast.Constant))
+
+    class Inline(ast.NodeTransformer):
+        def visit_FunctionDef(self, node):
+            if node.name in helpers:
+                return node          # keep the definition as it is
+            self.generic_visit(node)
+            return node
+
+        def visit_Call(self, node):
+            self.generic_visit(node)
+            if isinstance(node.func, ast.Name) and node.func.id in helpers and not node.keywords:
+                params, expr = helpers[node.func.id]
+                if len(node.args) == len(params) and all(simple(a) for a in node.args):
+                    bound = {n.id for n in ast.walk(expr) if isinstance(n, ast.Name) and isinstance(n.ctx, ast.Store)}
+                    arg_names = {n.id for a in node.args for n in ast.walk(a) if isinstance(n, ast.Name)}
+                    if bound & arg_names:
+                        return node
+                    mapping = dict(zip(params, node.args))
+
+                    class Sub(ast.NodeTransformer):
+                        def visit_Name(self, n):
+                            if n.id in mapping and isinstance(n.ctx, ast.Load):
+                                return ast.copy_location(copy.deepcopy(mapping[n.id]), n)
+                            return n
+                    new = Sub().visit(copy.deepcopy(expr))
+                    return ast.copy_location(new, node)
+            return node
+    Inline().visit(tree)
+    ast.fix_missing_locations(tree)
+
+
 def normal_form(tree, root=None, rel=None):
-    _inline_delegators(tree, _identifiers_elsewhere(root, rel) if root and rel else frozenset())
+    # statement-level forms first (so that `x = E; return x` bodies count as single-return functions), then the
+    # wrapper / implementation pairs, then extracted one-expression helpers, then expression forms
     _PlainAssign().visit(tree)
+    _InlineReturn().visit(tree)
+    _inline_delegators(tree, _identifiers_elsewhere(root, rel) if root and rel else frozenset())
+    _inline_pure_helpers(tree)
     _NormalForm().visit(tree)
     _InlineReturn().visit(tree)
     ast.fix_missing_locations(tree)
